@@ -2,7 +2,7 @@ SPECIFICATION Spec
 CONSTANTS
   MaxLen = 2
   Kinds <- TwoKinds
-  Outcomes <- AllSix
+  Outcomes <- AllSeven
   Tags <- NoTags
   MayToggle = TRUE
   MayAbort = TRUE
